@@ -260,6 +260,24 @@ fn det_inverse_body<T: Sym, const N: usize>(e: i64, reach: bool)
     reach_end(reach);
 }
 
+/// same contract as c18_vecmatrix.rs::echelon_det_body for the const-generic back end: the >= 4x4 arm of
+/// Matrix::determinant reproduced on 2x2 input and compared with the closed form
+fn echelon_det_body<const N: usize>(e: i64, reach: bool) {
+    let a = sym_mat::<i64, N, N>(e);
+    let m = Matrix::from(a);
+    let re = RowEchelonMatrix::new(&m);
+    let mut prod: i64 = 1;
+    let mut i = 0;
+    while i < N {
+        prod = prod * re.result[i][i];
+        i += 1;
+    }
+    let det = if re.nr_swaps % 2 == 0 { prod } else { -prod };
+    let want = if N == 1 { a[0][0] } else { a[0][0] * a[1 % N][1 % N] - a[0][1 % N] * a[1 % N][0] };
+    assert!(det == want, "C18.mat.echelon_determinant_contract");
+    reach_end(reach);
+}
+
 macro_rules! proofs {
     ($($name:ident => $call:expr;)*) => {$(
         #[cfg_attr(kani, kani::proof)]
@@ -308,7 +326,11 @@ macro_rules! proofs {
 // @harness c18_mat_i64_solve_2x1_e3_reach tier=quick unwind=6 block=64 mem=6 timeout=1200 twin
 // @harness c18_mat_i64_detinv_1_e3_reach tier=quick unwind=6 block=64 mem=6 timeout=1200 twin
 // @harness c18_mat_z7_rank_2x1_reach tier=quick unwind=8 block=64 mem=6 timeout=1200 twin
+// @harness c18_mat_i64_echdet_2_e1 tier=quick unwind=6 block=128 mem=14 timeout=1800
+// @harness c18_mat_i64_echdet_2_e2 tier=thorough unwind=6 block=128 mem=40 timeout=3600 stretch
 proofs! {
+    c18_mat_i64_echdet_2_e1 => echelon_det_body::<2>(1, false);
+    c18_mat_i64_echdet_2_e2 => echelon_det_body::<2>(2, false);
     c18_mat_i64_rank_2x1_e3_reach => rank_body::<i64, 2, 1>(3, true);
     c18_mat_i64_null_1x2_e3_reach => nullspace_body::<i64, 1, 2>(3, true);
     c18_mat_i64_solve_2x1_e3_reach => solve_body::<i64, 2, 1, 2>(3, true);
